@@ -227,11 +227,11 @@ def run_c02(rep, tier):
     nforms = len(small) + ne3
     # three states: one formula per temporal operator in the quick tier (they start first: each takes 10-180 s and ~3 GB)
     n3q = ['A (p U q)', 'A (p R q)', 'A G p', 'A F p', 'A X p']
-    tasks = [('LTL', 3, [t], dict(audit=False)) for t in n3q] + tasks
+    tasks = [('LTL', 3, [t], dict(audit=False, timeout_ms=1500000)) for t in n3q] + tasks      # (z3 needs ~150 s for U/R on a quiet machine)
     if tier == 'thorough':
         tasks += [('LTL', 2, [t], {}) for t in e4[:6]]
         n3 = [t for e, t in we if e <= 1 and t not in n3q][:80]
-        tasks += [('LTL', 3, [t], {}) for t in n3]
+        tasks += [('LTL', 3, [t], dict(timeout_ms=1500000)) for t in n3]
     rep.cov['bounds'].update(n='1..2; n=3 for %s' % ', '.join(n3q) + (' and 80 further formulas with e<=1' if tier == 'thorough' else ''), formulas=nforms,
                              formula_sets='A g for g in: atoms, depth 1 over {p,q,true,false}, depth 2 over {p,q} (e<=2), %d seeded depth-3 formulas with e=3' % ne3,
                              loop_bounds='folded runs: loops unroll until no input needs another iteration; every loop-terminating fold is re-proved by the solver',
